@@ -3665,7 +3665,7 @@ GO_TYPE = {'z': b'null', 'b': b'bool', 'n': b'float64', 'j': b'json.Number', 's'
 class C15(Prop):
     id = 'C15'
     rule = ('failing (path, document) pairs from the C01 generators: error type, path text, expected and found compared '
-            'exactly with the model (which keeps the connected-text ranking); for single-valued name/index paths the '
+            'exactly with the model (which keeps the connected-text ranking); for single-valued name/index paths (texts confirmed as Coq chain_path, broken by a missing name, a name under a non-object, an index outside the array or under a non-array) the '
             'error must be the first failing step with the right kind, computed independently in the harness; a user filter function '
             'that panics around an aggregate must reach the caller as a panic, not as an error of another step. '
             'Non-trivial: the retrieval fails on a path of >= 2 steps')
@@ -3692,17 +3692,29 @@ class C15(Prop):
             if lc is None:
                 continue
             doc, text, spec, loc, val = lc
-            # keep the leading name steps, then break the path: a missing name, or one more name under a non-object
-            k = 0
-            while k < len(spec) and spec[k][0] != 1:
-                k += 1
-            spec = spec[:k]
+            # C15_first_failing_step_with_indexes_from_text: name and index steps down to a node, then a step that cannot be taken — a
+            # missing name, a name under a non-object, an index outside the array (also counted from the end), an index under a
+            # non-array — and now and then further steps behind it: the error names the first one
+            if r.random() < 0.3:
+                k = 0
+                while k < len(spec) and spec[k][0] != 1:
+                    k += 1
+                spec = spec[:k]         # names only (C15_first_failing_step_from_text)
             if not spec:
                 continue
             # re-walk to know the text of each kept step and the value reached
             cur, parts = doc, []
             t_ = text[1:]
             for st in spec:
+                if st[0] == 1:
+                    seg = '[' + ''.join(chr(c) for c in st[1]) + ']'
+                    if not t_.startswith(seg):
+                        parts = None
+                        break
+                    parts.append(seg)
+                    t_ = t_[len(seg):]
+                    cur = cur[1][int(seg[1:-1])]
+                    continue
                 key = ''.join(chr(c) for c in st[1]).encode('utf-8')
                 if st[0] == 0:
                     seg = '.' + gens.esc_dot(key).decode('utf-8')
@@ -3717,17 +3729,37 @@ class C15(Prop):
                 cur = [x for kk, x in cur[1] if kk == key][-1]
             if parts is None:
                 continue
-            # the failing step's own name may need escapes in dot notation (a dot, a blank, brackets): the error names the step AS WRITTEN
-            extra_key = r.choice([b'zz9', b'nope', b'a', b'a.b', b'k 1', b'a[0]', b'$x', b'q.'])
-            style = r.choice("'\".")
-            seg = ('.' + gens.esc_dot(extra_key).decode('utf-8')) if style == '.' else '[%s%s%s]' % (style, extra_key.decode(), style)
-            if cur[0] == 'o' and any(kk == extra_key for kk, _ in cur[1]):
-                continue
-            spec2 = spec + [(0 if style == '.' else ord(style), [ord(ch) for ch in extra_key.decode()])]
-            c = Case('nm%d' % i, ('$' + ''.join(parts) + seg).encode('utf-8'), [doc], meta={'family': 'coq-name-path-error', 'nsteps': len(spec2)})
+            if r.random() < (0.5 if cur[0] == 'a' else 0.25):
+                # an index step that cannot be taken
+                if cur[0] == 'a':
+                    n_ = r.choice([len(cur[1]), len(cur[1]) + r.randint(1, 3), -(len(cur[1]) + 1), -(len(cur[1]) + r.randint(2, 4))])
+                else:
+                    n_ = r.choice([0, 1, -1])
+                digits = ('-' if n_ < 0 else '') + ('0' if r.random() < 0.2 else '') + str(abs(n_))
+                seg = '[' + digits + ']'
+                spec2 = spec + [(1, [ord(ch) for ch in digits])]
+                exp_ = ('mne', seg.encode('utf-8')) if cur[0] == 'a' else ('tum', seg.encode('utf-8'), 'array', cur)
+            else:
+                # the failing step's own name may need escapes in dot notation (a dot, a blank, brackets): the error names the step AS WRITTEN
+                extra_key = r.choice([b'zz9', b'nope', b'a', b'a.b', b'k 1', b'a[0]', b'$x', b'q.'])
+                style = r.choice("'\".")
+                seg = ('.' + gens.esc_dot(extra_key).decode('utf-8')) if style == '.' else '[%s%s%s]' % (style, extra_key.decode(), style)
+                if cur[0] == 'o' and any(kk == extra_key for kk, _ in cur[1]):
+                    continue
+                spec2 = spec + [(0 if style == '.' else ord(style), [ord(ch) for ch in extra_key.decode()])]
+                exp_ = ('mne', seg.encode('utf-8')) if cur[0] == 'o' else ('tum', seg.encode('utf-8'), 'object', cur)
+            behind = ''
+            for _ in range(r.choice([0, 0, 1, 2])):
+                if r.random() < 0.5:
+                    behind += '.zz'
+                    spec2 = spec2 + [(0, [122, 122])]
+                else:
+                    behind += '[0]'
+                    spec2 = spec2 + [(1, [48])]
+            c = Case('nm%d' % i, ('$' + ''.join(parts) + seg + behind).encode('utf-8'), [doc], meta={'family': 'coq-name-path-error', 'nsteps': len(spec2)})
             c.keyc = spec2
             cases.append(c)
-            expect[c.id] = ('mne', seg.encode('utf-8')) if cur[0] == 'o' else ('tum', seg.encode('utf-8'), 'object', cur)
+            expect[c.id] = exp_
             keyc_cases = True
         # several branches failing in DIFFERENT functions of a chain: the error names the function furthest along the path,
         # whatever the order of the branches
